@@ -97,7 +97,7 @@ Proof.
   - cbn [flat_map app kv_loop map]. rewrite int32_0. simpl. rewrite app_nil_r. reflexivity.
   - cbn [forallb fst snd] in H. apply andb_prop in H. destruct H as [Hh Ht].
     apply andb_prop in Hh. destruct Hh as [Hkv Hnz]. apply andb_prop in Hkv. destruct Hkv as [Hk Hv].
-    simpl in Hnz. apply andb_prop in Hnz. destruct Hnz as [Hk0 Hv0].
+    simpl in Hnz. pose proof Hnz as Hk0.
     pose proof (sid_ok_spec b k Hk) as [Hkr Hk']. pose proof (sid_ok_spec b v Hv) as [Hvr Hv'].
     cbn [flat_map app kv_loop map fst snd].
     rewrite (int32_enc k) by (unfold two31 in *; lia). rewrite (int32_enc v) by (unfold two31 in *; lia).
@@ -291,7 +291,7 @@ Proof.
   apply Forall_forall. intros g Hg. apply Forall_forall. intros it Hit.
   rewrite forallb_forall in Hv. specialize (Hv g Hg).
   rewrite forallb_forall in Hv. specialize (Hv it Hit).
-  destruct it as [d|w|r|id]; simpl in *.
+  destruct it as [d|w|r|id|pn]; simpl in *; [| | | |discriminate].
   - apply dense_decodes. exact Hv.
   - apply way_decodes. exact Hv.
   - apply rel_decodes. exact Hv.
